@@ -233,11 +233,148 @@ def funcinfo_of_code(code, globals_):
         raise Unsupported('cannot locate source of %s (%s:%d): %d candidates'
                           % (name, filename, code.co_firstlineno, len(cands)))
     node = cands[0]
+    node = _with_pinned_local_names(node, globals_.get('__name__'), filename)
     info = FuncInfo(node, globals_, node._pv_class_name, node._pv_qualname, filename)
     seg = ast.get_source_segment(src, node)
     info.source_sha = hashlib.sha256((seg or '').encode()).hexdigest()
     _INFO_CACHE[key] = info
     return info
+
+
+# ---------------------------------------------------------------------------------------------------------
+# Renamed local variables.  Loop invariants and `locals=` shapes of the sidecar contracts name local variables of
+# the functions they annotate.  A change that only renames locals (the function is the pinned one up to a
+# consistent renaming of identifiers that are local to it) must not make the proof fail: such a function is
+# interpreted with the pinned names put back.  baseline/pinned_names.json (written by `python3-vt -m
+# pyvc.pinned_names`) holds, per function under contract, the hash of its AST with the local identifiers replaced
+# by position markers and those identifiers in order of first occurrence.
+
+_PINNED_NAMES = None
+
+
+def _pinned_names():
+    global _PINNED_NAMES
+    if _PINNED_NAMES is None:
+        import json
+        try:
+            with open(os.path.join(VERIF, 'baseline', 'pinned_names.json')) as f:
+                _PINNED_NAMES = json.load(f)
+        except (OSError, ValueError):
+            _PINNED_NAMES = {}
+    return _PINNED_NAMES
+
+
+def _own_and_nested_locals(node):
+    """identifiers that are local to the function or to a function / lambda nested in it; parameters of the
+    function itself are not included (they are part of its interface)"""
+    a = node.args
+    params = {x.arg for x in a.posonlyargs + a.args + a.kwonlyargs}
+    if a.vararg:
+        params.add(a.vararg.arg)
+    if a.kwarg:
+        params.add(a.kwarg.arg)
+    names = set(_local_names(node)[0]) - params
+    for n in ast.walk(node):
+        if n is not node and isinstance(n, (ast.FunctionDef, ast.AsyncFunctionDef, ast.Lambda)):
+            names |= set(_local_names(n)[0])
+        elif isinstance(n, (ast.ListComp, ast.SetComp, ast.DictComp, ast.GeneratorExp)):
+            for g in n.generators:
+                for t in ast.walk(g.target):
+                    if isinstance(t, ast.Name):
+                        names.add(t.id)
+    # names that also appear as something that is not renamed (keyword of a call, attribute, import) stay
+    fixed = set()
+    for n in ast.walk(node):
+        if isinstance(n, ast.keyword) and n.arg:
+            fixed.add(n.arg)
+        elif isinstance(n, (ast.Import, ast.ImportFrom)):
+            for al in n.names:
+                fixed.add((al.asname or al.name).split('.')[0])
+        elif isinstance(n, (ast.FunctionDef, ast.AsyncFunctionDef, ast.ClassDef)) and n is not node:
+            fixed.add(n.name)
+        elif isinstance(n, (ast.Global,)):
+            fixed.update(n.names)
+    return names - fixed - params
+
+
+def _identifier_slots(node):
+    """(object, attribute) of every identifier occurrence that a renaming of locals touches, in source order"""
+    out = []
+
+    def visit(n):
+        if isinstance(n, ast.Name):
+            out.append((n, 'id'))
+        elif isinstance(n, ast.arg):
+            out.append((n, 'arg'))
+        elif isinstance(n, ast.ExceptHandler) and n.name:
+            out.append((n, 'name'))
+        elif isinstance(n, ast.Nonlocal):
+            out.append((n, 'names'))
+        for ch in ast.iter_child_nodes(n):
+            visit(ch)
+
+    visit(node)
+    return out
+
+
+def alpha_signature(node):
+    """(sha256 of the AST with local identifiers replaced by position markers, the identifiers in order of first
+    occurrence).  Lambdas have no signature (None)."""
+    if not isinstance(node, (ast.FunctionDef, ast.AsyncFunctionDef)):
+        return None
+    import copy
+    names = _own_and_nested_locals(node)
+    tree = copy.deepcopy(node)
+    order = []
+    for obj, attr in _identifier_slots(tree):
+        v = getattr(obj, attr)
+        if attr == 'names':
+            new = []
+            for x in v:
+                if x in names:
+                    if x not in order:
+                        order.append(x)
+                    new.append('_v%d' % order.index(x))
+                else:
+                    new.append(x)
+            obj.names = new
+        elif v in names:
+            if v not in order:
+                order.append(v)
+            setattr(obj, attr, '_v%d' % order.index(v))
+    digest = hashlib.sha256(ast.dump(tree, include_attributes=False).encode()).hexdigest()
+    return digest, order
+
+
+def _with_pinned_local_names(node, modname, filename):
+    if not isinstance(node, (ast.FunctionDef, ast.AsyncFunctionDef)) or not modname:
+        return node
+    pin = _pinned_names().get('%s:%s' % (modname, node._pv_qualname))
+    if not pin:
+        return node
+    digest, order = alpha_signature(node)
+    if digest != pin['alpha'] or order == pin['order'] or len(order) != len(pin['order']):
+        return node
+    mapping = dict(zip(order, pin['order']))
+    # no capture: a pinned name that is put back must not be in use for something else in the new text
+    others = set()
+    for obj, attr in _identifier_slots(node):
+        v = getattr(obj, attr)
+        for x in (v if attr == 'names' else [v]):
+            if x not in mapping:
+                others.add(x)
+    if set(mapping.values()) & others:
+        return node
+    import copy
+    tree = copy.deepcopy(node)
+    for obj, attr in _identifier_slots(tree):
+        v = getattr(obj, attr)
+        if attr == 'names':
+            obj.names = [mapping.get(x, x) for x in v]
+        elif v in mapping:
+            setattr(obj, attr, mapping[v])
+    tree._pv_renamed_locals = {k: v for k, v in mapping.items() if k != v}
+    return tree
 
 
 def funcinfo_of(func):
@@ -283,7 +420,7 @@ def raw_function(obj):
     if isinstance(obj, (staticmethod, classmethod)):
         return obj.__func__
     if isinstance(obj, property):
-        return obj.fget
+        return raw_function(obj.fget)      # e.g. a property whose getter is a @contextmanager generator
     if isinstance(obj, types.MethodType):
         return obj.__func__
     if hasattr(obj, '__wrapped__') and isinstance(obj, types.FunctionType) and \
